@@ -377,6 +377,60 @@ def install_guard(ctx) -> None:
     ctx.check(len(ret) == 1 and core.src(ret[0].value) == '_body.Artifact(path, self.manifest.package, **self.manifest.modules)', 'C18.package', inst, 'the artifact is described by the package\'s own manifest (package and module map)', inst.node, key='install:artifact')
 
 
+def zip_safe(ctx) -> None:
+    """A zip package is installed *as a zip file* only when every member can be used from inside one - python sources and
+    byte code, which zipimport serves; anything else (data files a component reads relative to ``__file__``, native
+    libraries) needs a real directory, so the package is extracted.  The as-is branch (``write_bytes`` of the package file)
+    must stand under a universally quantified whitelist test over ``namelist()`` whose pattern admits .py/.pyc/.pyo only."""
+    import re
+
+    prog = ctx.prog
+    inst = prog.func(f'{DIST}:Package.install')
+    asis = [c for c in core.calls_in(inst.node) if isinstance(c.func, ast.Attribute) and c.func.attr == 'write_bytes']
+    extract = [c for c in core.calls_in(inst.node) if isinstance(c.func, ast.Attribute) and c.func.attr == 'extractall']
+    ctx.check(len(extract) >= 1, 'C18.package', inst, 'a zip package that is not zip-safe is extracted into a directory', inst.node, key='install:extract')
+    ci = prog.cls(f'{DIST}:Package')
+    for c in asis:
+        ok = False
+        why = 'no whitelist test found'
+        for test, pol in cfg.guards(c, inst.node, siblings=False):
+            t, p = test, pol
+            while isinstance(t, ast.UnaryOp) and isinstance(t.op, ast.Not):
+                t, p = t.operand, not p
+            if not (isinstance(t, ast.Call) and isinstance(t.func, ast.Name) and t.func.id in ('all', 'any') and len(t.args) == 1 and isinstance(t.args[0], (ast.GeneratorExp, ast.ListComp)) and len(t.args[0].generators) == 1):
+                continue
+            gen = t.args[0]
+            if 'namelist()' not in core.src(gen.generators[0].iter) or gen.generators[0].ifs:
+                continue
+            elt, neg = gen.elt, False
+            while isinstance(elt, ast.UnaryOp) and isinstance(elt.op, ast.Not):
+                elt, neg = elt.operand, not neg
+            # all(match) held positively, or any(not match) held negatively
+            universal = (t.func.id == 'all' and p and not neg) or (t.func.id == 'any' and not p and neg)
+            if not (universal and isinstance(elt, ast.Call) and isinstance(elt.func, ast.Attribute) and elt.func.attr in ('search', 'match', 'fullmatch') and [core.src(a) for a in elt.args] == [core.src(gen.generators[0].target)]):
+                why = f'`{core.src(test)[:60]}` is not a whitelist test of every member'
+                continue
+            const = elt.func.value.attr if isinstance(elt.func.value, ast.Attribute) else (elt.func.value.id if isinstance(elt.func.value, ast.Name) else None)
+            pat = ci.assigns.get(const) if const else None
+            if pat is None and const:
+                pat = ci.module.assigns.get(const)
+            if not (isinstance(pat, ast.Call) and core.call_name(pat) == 're.compile' and pat.args and isinstance(pat.args[0], ast.Constant) and isinstance(pat.args[0].value, str)):
+                why = f'pattern constant `{const}` not found as a re.compile literal'
+                continue
+            try:
+                rx = re.compile(pat.args[0].value)
+            except re.error:
+                why = 'pattern does not compile'
+                continue
+            fn_ = getattr(rx, elt.func.attr)
+            admits = [m for m in ('pkg/mod.py', 'pkg/mod.pyc', 'pkg/mod.pyo') if fn_(m)]
+            refuses = [m for m in ('pkg/columns.json', 'pkg/lib.so', 'pkg/data.csv', 'pkg/mod.pyx', 'pkg/mod.pyd', 'pkg/README', 'pkg/model.bin', 'pkg/py') if not fn_(m)]
+            ok = len(admits) >= 1 and len(refuses) == 8
+            why = f'pattern {pat.args[0].value!r} admits {admits}, refuses {refuses}'
+        ctx.check(ok, 'C18.package', inst, f'the package file is installed as it is only when every member is a python source / byte code file ({why})', c, key='install:zip-safe')
+    ctx.floor('C18.zip-safe', len(asis), 1)
+
+
 def manifest_read(ctx) -> None:
     """Reading a manifest always imports the descriptor module afresh from the given path: the module is evicted from
     sys.modules on every way out (otherwise the next read - of another package - gets the first one's module back), and the
@@ -403,6 +457,7 @@ def run(ctx) -> None:
     C05.gap_free(ctx)
     C05.key_paths(ctx)
     install_guard(ctx)
+    zip_safe(ctx)
     level_key(ctx)
     key_gate(ctx)
     package_content(ctx)
